@@ -7,6 +7,8 @@
      eq      what  println(c == <reflit>)  printed ("true"/"false"/"")
      hasv,v  var v <vt> = c; println(v)  re-chunked as a BigInt
      dtobs   dynamic type of  var i interface{} = c
+     kids    the same observation fields for the non-leaf operands of a depth-2 expression (each observed as a
+             constant of its own); used only to attribute a failure to the operand that already fails
 
    The reference value/verdict is recomputed here by TLC from `expr` (Const.tla part I).  src/reflit/vt/dt were
    computed by the same reference in MC_Const (checks/c02.py verifies that every observation echoes its exported
@@ -64,13 +66,18 @@ OpName(op) == CASE op = "+" -> "add" [] op = "-" -> "sub" [] op = "*" -> "mul" [
 Coarse(ty) == CASE ty \in SignedTypes -> "sint" [] ty \in UnsignedTypes -> "uint" [] ty \in FloatTypes -> "float"
                 [] ty \in ComplexTypes -> "complex" [] OTHER -> ty
 KindOf(t) == LET e == Eval(t) IN IF e.st = "ok" THEN Coarse(e.ty) ELSE e.st
-OffF64(d) == LET x == RoundTo(d, "float64") IN x.ovf \/ x.v # d
+\* float64 cannot hold d because of its exponent range (overflow, or bits below 2^-1074) ...
+OffRange(d) == d.n.s # 0 /\ (DyMsb(d) > 1023 \/ d.e + TrailingZeros(d.n) < -1074)
+\* ... or only because d needs more than 53 bits of mantissa
+NeedsRound(d) == d.n.s # 0 /\ ~OffRange(d) /\ LET x == RoundTo(d, "float64") IN x.ovf \/ DyCmp(x.v, d) # 0
 RECURSIVE LitOff(_)
-LitOff(t) == CASE t.k = "lit" -> t.lk \in {"float", "imag"} /\ OffF64(DyMk(t.n, t.e))
+LitOff(t) == CASE t.k = "lit" -> t.lk \in {"float", "imag"} /\ OffRange(DyMk(t.n, t.e))
                [] t.k = "bin" -> LitOff(t.a) \/ LitOff(t.b)
                [] OTHER -> LitOff(t.a)
-RefOff(ref) == ref.st = "ok" /\ ref.chk /\ ref.v.k = "n" /\ TClass(ref.ty) \in {"float", "complex"}
-               /\ (OffF64(ref.v.re) \/ OffF64(ref.v.im))
+NumVal(ref) == ref.st = "ok" /\ ref.chk /\ ref.v.k = "n"
+RefOff(ref) == NumVal(ref) /\ TClass(ref.ty) \in {"float", "complex"} /\ (OffRange(ref.v.re) \/ OffRange(ref.v.im))
+\* an operand whose exact value float64 can only hold after rounding
+OperandNeedsRound(t) == LET e == Eval(t) IN NumVal(e) /\ (NeedsRound(e.v.re) \/ NeedsRound(e.v.im))
 OpKind(t) == IF t.k # "bin" THEN t.k
              ELSE IF t.op \in ArithOps THEN "arith" ELSE IF t.op \in IntOnlyOps THEN "intonly" ELSE IF t.op \in OrdOps THEN "order"
              ELSE IF t.op \in EqOps THEN "eq" ELSE IF t.op \in LogicOps THEN "logic" ELSE "shift"
@@ -80,15 +87,22 @@ OperandClass(ka, kb) ==
   IF K \cap {"complex", "u.complex"} # {} THEN "complex"
   ELSE IF K \cap {"float", "u.float"} # {} THEN "float"
   ELSE IF K \subseteq {"sint", "uint", "u.int", "u.rune", "-"} THEN "int" ELSE "other"
-Sig(r) == LET t == r.expr ref == Ref(r)
-              ka == IF t.k = "lit" THEN "-" ELSE KindOf(t.a)
-              kb == IF t.k = "bin" THEN KindOf(t.b) ELSE "-" IN
-          [fam |-> "const", fail |-> Fail2(r, ref), opk |-> OpKind(t), oc |-> OperandClass(ka, kb),
-           typed |-> IF {ka, kb} \cap {"sint", "uint", "float", "complex", "bool", "string"} # {} THEN 1 ELSE 0,
-           root |-> IF t.k = "lit" THEN "lit" ELSE IF t.k = "conv" THEN "conv" ELSE IF t.k = "un" THEN (IF t.op = "-" THEN "neg" ELSE IF t.op = "+" THEN "pos" ELSE IF t.op = "^" THEN "cpl" ELSE "not") ELSE OpName(t.op),
-           to |-> IF t.k = "conv" THEN Coarse(t.ty) ELSE "-",
-           ka |-> ka, kb |-> kb,
-           xf64 |-> IF LitOff(t) \/ RefOff(ref) THEN 1 ELSE 0]
+Sig1(r) == LET t == r.expr ref == Ref(r)
+               ka == IF t.k = "lit" THEN "-" ELSE KindOf(t.a)
+               kb == IF t.k = "bin" THEN KindOf(t.b) ELSE "-" IN
+           [fam |-> "const", fail |-> Fail2(r, ref), opk |-> OpKind(t), oc |-> OperandClass(ka, kb),
+            typed |-> IF {ka, kb} \cap {"sint", "uint", "float", "complex", "bool", "string"} # {} THEN 1 ELSE 0,
+            root |-> IF t.k = "lit" THEN "lit" ELSE IF t.k = "conv" THEN "conv" ELSE IF t.k = "un" THEN (IF t.op = "-" THEN "neg" ELSE IF t.op = "+" THEN "pos" ELSE IF t.op = "^" THEN "cpl" ELSE "not") ELSE OpName(t.op),
+            to |-> IF t.k = "conv" THEN Coarse(t.ty) ELSE "-",
+            ka |-> ka, kb |-> kb,
+            xf64 |-> IF LitOff(t) \/ RefOff(ref) THEN 1 ELSE 0,
+            xprec |-> IF t.k # "lit" /\ (OperandNeedsRound(t.a) \/ (t.k = "bin" /\ OperandNeedsRound(t.b))) THEN 1 ELSE 0]
+\* a failing expression one of whose operands already fails on its own is attributed to that operand
+RECURSIVE FirstBadKid(_, _)
+FirstBadKid(r, i) == IF i > Len(r.kids) THEN 0 ELSE IF Fail(r.kids[i]) # "" THEN i ELSE FirstBadKid(r, i + 1)
+Sig(r) == LET i == FirstBadKid(r, 1) IN IF i = 0 THEN Sig1(r) ELSE Sig1(r.kids[i])
+RECURSIVE AllBound(_, _)
+AllBound(r, i) == IF i > Len(r.kids) THEN TRUE ELSE Bound(r.kids[i], Ref(r.kids[i])) /\ AllBound(r, i + 1)
 
 (* ---- diagnostic: reason class of the build error vs the reference's reason class (drift, never a verdict) ---- *)
 RECURSIVE CHasAt(_, _, _, _)
@@ -118,7 +132,7 @@ Next == /\ l <= Len(Obs) /\ l' = l + 1
 Done == l = Len(Obs) + 1 =>
           /\ ndJsonSerialize("bad.ndjson",
                [j \in 1..Len(badidx) |-> [k |-> badidx[j], id |-> Obs[badidx[j]].id, sig |-> Sig(Obs[badidx[j]]), nbad |-> nbad,
-                                       bound |-> IF Bound(Obs[badidx[j]], Ref(Obs[badidx[j]])) THEN 1 ELSE 0]])
+                                       bound |-> IF Bound(Obs[badidx[j]], Ref(Obs[badidx[j]])) /\ AllBound(Obs[badidx[j]], 1) THEN 1 ELSE 0]])
           /\ ndJsonSerialize("stats.ndjson", <<[records |-> Len(Obs), nbad |-> nbad, ref_undefined |-> nskip, reason_class_drift |-> ndrift]>>)
 Consumed == TLCGet("stats").diameter - 1 = Len(Obs)
 =============================================================================
